@@ -12,6 +12,7 @@ import (
 	"bufio"
 	"encoding/binary"
 	"fmt"
+	"io"
 	"os"
 	"strconv"
 	"strings"
@@ -116,6 +117,13 @@ func LoadSTL(path string) ([]*sdf.Triangle3, error) {
 	// read header, get expected binary size
 	header := STLHeader{}
 	if err := binary.Read(file, binary.LittleEndian, &header); err != nil {
+		if err == io.EOF || err == io.ErrUnexpectedEOF {
+			// shorter than a binary header: it can only be ascii
+			if _, err := file.Seek(0, 0); err != nil {
+				return nil, err
+			}
+			return loadSTLAscii(file)
+		}
 		return nil, err
 	}
 	expectedSize := int64(header.Count)*50 + 84
